@@ -283,7 +283,70 @@ def c11(tier):
     return jobs, meta
 
 
+def c17(tier):
+    import templates
+    jobs = [(H('.', 'HarnessC17Config'), P('.'), None, {})]
+    for o, c, t in templates.C17_PAIRS:
+        jobs.append((H('.', 'HarnessC17Overload'), P('.'), None, {'params': {'opsrc': o, 'callsrc': c, 'table': t}, 'label': '%s ~ %s [table %d]' % (o, c, t), 'job_timeout': 600}))
+    meta = {
+        'explanation': 'operator form and explicit-call form of each expression are compiled by the real pipeline (FindSuitableOperatorOverload, operatorPatcher via ast.Walk, checker overload branch, Config.Check) with expr.Operator tables of one or several candidates (concrete, interface-typed and method candidates, different orders) and run on the real VM with symbolic member values and UNINTERPRETED overload functions with a call log; z3 decides equal result and equal (function, operands, order) log for all values; positions: nested, under index/slice/property, in closure bodies, call arguments, map values, conditional branches; occurrences with non-matching operand types keep the built-in meaning; ill-shaped mappings (missing, non-function, wrong arity, two results) at either table position are rejected',
+        'bounds': {'expression pairs': len(templates.C17_PAIRS), 'overload tables': 6, 'operand values': 'all int64'},
+        'outside': ['operand types changed by a user Patch visitor between the two checks', 'expressions outside the listed positions'],
+        'assumptions': COMMON_ASSUME,
+        'must_reach': ['c17.ran', 'c17.config.checked'],
+    }
+    return jobs, meta
+
+
+def c03_fill(ctx, x):
+    out = []
+    i = 0
+    while i < len(ctx):
+        if ctx.startswith('{X}', i): out.append(x); i += 3
+        elif ctx.startswith('{{', i): out.append('{'); i += 2
+        elif ctx.startswith('}}', i): out.append('}'); i += 2
+        else: out.append(ctx[i]); i += 1
+    return ''.join(out)
+
+
+def c03(tier):
+    import templates, random
+    q = tier == 'quick'
+    jobs = []
+    sound = [s for s in templates.gen(1) if 'Any' not in s] + templates.C03_SOUND_EXTRA
+    if not q:
+        sound += [s for s in templates.gen(2, quick=True) if 'Any' not in s and s not in sound]
+    for n, src in enumerate(sound):
+        for a in ((0,) if q and n % 4 else (0, 1, 2, 3)):
+            jobs.append((H('.', 'HarnessC03Sound'), P('.'), None, {'params': {'src': src, 'as': a, 'maxlen': 2}, 'label': 'sound %s [as=%d]' % (src, a), 'job_timeout': 300 if q else 900}))
+    rnd = random.Random(SEED[0])
+    n = 0
+    for f in templates.C03_FAULTS:
+        ctxs = templates.C03_CONTEXTS
+        if q:
+            ctxs = [ctxs[0]] + rnd.sample(ctxs[1:], 3)
+        for c in ctxs:
+            if f == '#' and 'map(' in c:
+                continue
+            src = c03_fill(c, f)
+            jobs.append((H('.', 'HarnessC03Reject'), P('.'), None, {'params': {'src': src, 'wellsrc': 0}, 'label': 'reject ' + src}))
+    for w in templates.C03_WELL:
+        for c in templates.C03_CONTEXTS[:6] if q else templates.C03_CONTEXTS:
+            src = c03_fill(c, w)
+            jobs.append((H('.', 'HarnessC03Reject'), P('.'), None, {'params': {'src': 'Foo_undefined + 1', 'wellsrc': 1, 'well': src}, 'label': 'accept ' + src}))
+    meta = {
+        'explanation': 'soundness: every template accepted by the real checker against the environment type (members of the numeric kinds int/int64/uint8/float64, bool, string, []int, [][]int, []string, map[string]int, pointer chain, functions, methods; no interface-typed operand) is run on the real VM with symbolic environment values; z3 decides that no run fails for a type reason (classified from the error text: invalid operation, interface conversion, cannot fetch, reflect Call/MapIndex assignability, ...) and that a successful result has the dynamic type checker.Check reported, exactly bool/int64/float64 under AsBool/AsInt64/AsFloat64. rejection: each documented typing rule violated once (mismatched operands, unknown name/field/method, arity and argument type, non-boolean condition/predicate, non-collection builtin argument, bad index/slice) placed in 12 expression contexts must be rejected by Compile, and the well-typed sibling in the same context accepted',
+        'bounds': {'soundness templates': len(sound), 'faults x contexts': '%d x %d' % (len(templates.C03_FAULTS), len(templates.C03_CONTEXTS)), 'arrays': '<= 2', 'environment types': 'the members of the harness environment'},
+        'outside': ['environment types beyond the harness environment (named scalar types, pointer-to-scalar members, arrays)', 'faults beyond the listed ones', 'programs above the node budget'],
+        'assumptions': COMMON_ASSUME + ['type versus value failure is classified from the error message text'],
+        'must_reach': ['c03.sound.ran', 'c03.sound.succeeded', 'c03.reject.compiled'],
+    }
+    return jobs, meta
+
+
 PROPS = {
+    'C03': c03,
+    'C17': c17,
     'C11': c11,
     'C04': c04,
     'C12': c12,
